@@ -167,7 +167,7 @@ string_backslash = Parser.literal("\\", skip_whitespace_before=False)
 # trouble. We white-list what's reasonable.
 caret_parenthesis = Parser.regex(r"\^[$_=[\]\\{}|:/<>?]")
 
-local_symbol_literal = Parser.regex(r"\d[a-z_0-9$.]*")
+local_symbol_literal = Parser.regex(r"[0-9][a-z_0-9$.]*")
 symbol_literal = Parser.regex(r"[a-z_$][a-z_0-9$.]*")
 instruction_name = Parser.regex(r"\.?[a-z_][a-z_0-9]*")
 
@@ -193,7 +193,7 @@ def number(ctx, terminator=never):
         ("^X", "A hexadecimal", r"[0-9a-f]", 16),
         ("^O", "An octal", r"[0-7]", 8),
         ("^B", "A binary", r"[01]", 2),
-        ("^D", "A decimal", r"\d", 10)
+        ("^D", "A decimal", r"[0-9]", 10)
     ):
         if Parser.literal(prefix)(ctx, maybe=True):
             num = Parser.regex(rf"{digit_regex}+(?![$_.])\b", skip_whitespace_before=False)(ctx, report=(
